@@ -102,6 +102,11 @@ func (u *udpHandler) Handle() error {
 			TLOG.Errorf("Close connection %s: %v", u.config.Address, err)
 			return err // TODO: check if necessary
 		}
+		if n < 4 {
+			// shorter than the length header: not a tars package (Invoke slices req[4:])
+			TLOG.Errorf("drop malformed udp packet from %v, length %d", udpAddr, n)
+			continue
+		}
 		pkg := make([]byte, n)
 		copy(pkg, buffer[0:n])
 		u.handleUDPAddr(udpAddr, pkg)
